@@ -467,7 +467,7 @@ void run_unit(Ctx &cx, uint64_t unit_index, const DumpSpec &d, int kind, bool th
         cx.prog->fault_kind = (uint64_t)cases[i].value;
         cx.prog->run = cases[i].reader >= 0 ? (uint64_t)cases[i].reader + 1 : 0;
         std::string detail;
-        watchdog_arm(cx.under_valgrind ? 120 : 10);
+        watchdog_arm(cx.under_valgrind ? 30 : 5);
         std::string key = run_case(cx, p, cases[i], detail);
         watchdog_disarm();
         if (!key.empty()) {
@@ -577,7 +577,7 @@ int main(int argc, char **argv)
             return 0;
         }
         std::string detail;
-        watchdog_arm(cx.under_valgrind ? 120 : 10);
+        watchdog_arm(cx.under_valgrind ? 30 : 5);
         std::string key = run_case(cx, p, c, detail);
         watchdog_disarm();
         if (key.empty())
